@@ -184,6 +184,9 @@ func specialKindCases(g *Gen, hostile, withSafeMessager bool) []*Case {
 	return cases
 }
 
+var emptyRef = goErr.New("")
+var emptyRef2 = errors.New("")
+
 // emptyTextCases: layers whose own text, or whose cause's text, is empty (a leaf New(""), a foreign
 // wrapper that replaces a non-empty cause's message by ""): outside the "regular text" the
 // transport model is about, so judged by the direct oracles only (C02: identity, C04: unknowing
@@ -201,6 +204,9 @@ func emptyTextCases(prop string, g *Gen) []*Case {
 		{"withmessage(empty leaf)", func() error { return errors.WithMessage(errors.New(""), "only") }, func() error { return errors.WithMessage(errors.New("only"), "") }},
 		{"wrap(withmessage(empty leaf))", func() error { return errors.Wrap(errors.WithMessage(errors.New(""), "inner"), "outer") },
 			func() error { return errors.Wrap(errors.WithMessage(errors.New("inner"), ""), "outer") }},
+		// a mark whose reference has an EMPTY message: the forced identity must survive transfer
+		{"mark(ref with empty text)", func() error { return errors.Mark(errors.New("boom"), emptyRef) }, func() error { return emptyRef }},
+		{"wrap(mark(ref with empty text))", func() error { return errors.Wrap(errors.Mark(goErr.New("boom"), emptyRef2), "ctx") }, func() error { return emptyRef2 }},
 		// (not included: a foreign "prefix: cause" wrapper over an empty-text cause, and a Join with an
 		// empty branch: there the text at an unknowing process differs on the unchanged tree, an
 		// observation outside the properties' "regular text = non-empty"; see DESIGN 14.3)
@@ -302,4 +308,33 @@ func deepChain(n int) error {
 		return errors.New("deep")
 	}
 	return deepChain(n - 1)
+}
+
+// sharedWrapperCases: the same WRAPPER object (not just a shared leaf) reachable through several
+// branches of a multi-cause node.  The recipe language builds a fresh object per node, so these are
+// built directly and judged by the direct oracles only (shape and text after hops, identity).
+func sharedWrapperCases() []*Case {
+	w := errors.Wrap(goErr.New("shared leaf"), "shared wrapper")
+	f := fmt.Errorf("fmt shared: %w", goErr.New("inner"))
+	j := errors.Join(errors.New("j1"), errors.New("j2"))
+	shapes := []namedErr{
+		{"join(w, w)", errors.Join(w, w)},
+		{"join(hint(w), w)", errors.Join(errors.WithHint(w, "h"), w)},
+		{"join(wrap(w), wrap(w))", errors.Join(errors.Wrap(w, "n1"), errors.Wrap(w, "n2"))},
+		{"stdjoin(f, wrap(f))", goErr.Join(f, errors.Wrap(f, "again"))},
+		{"wrap(join(j, withstack(j)))", errors.Wrap(errors.Join(j, errors.WithStack(j)), "top")},
+		{"fmt %w %w (w, w)", fmt.Errorf("two: %w and %w", w, w)},
+	}
+	var cases []*Case
+	for i, sh := range shapes {
+		refs := append(nodesOfErr(sh.e, nil), goErr.New("shared leaf"), errors.New("j2"))
+		c := &Case{ID: fmt.Sprintf("sharedwrap%d", i), Err: sh.e, Refs: refs, RefRecs: make([]*R, len(refs)), NoModel: true,
+			Rec: &R{Op: "special:sharedwrapper:" + sh.name}}
+		c.Cmd = L(Sym("special"), Str("sharedwrapper"), Str(sh.name))
+		// the real observations (trees, encodings, Is vectors before and after hops) for the direct
+		// oracles; the model is not asked
+		c.Real = obsCase(sh.e, refs)
+		cases = append(cases, c)
+	}
+	return cases
 }
